@@ -24,7 +24,7 @@ ASSUMPTIONS = [
     "'discarded' for prune/expand/replace-with-deletion = nodes reachable from the operated root before but not after",
     "attach and replace without deletion do not change the registry",
 ]
-REQUIRED = ["op:replace_by_sibling", "op:copy_discarded", "misplaced_sweep_cases", "op:expand_dangling", "dangling_expansions_that_raised", "nodes_in_one_copy", "op:borrow", "documents_closed_and_reopened", "op:create", "op:copy", "op:from_xml", "op:from_json", "op:attach", "op:replace_delete", "op:replace_keep", "op:prune",
+REQUIRED = ["nested_foreign_sweep_cases", "op:replace_by_sibling", "op:copy_discarded", "misplaced_sweep_cases", "op:expand_dangling", "dangling_expansions_that_raised", "nodes_in_one_copy", "op:borrow", "documents_closed_and_reopened", "op:create", "op:copy", "op:from_xml", "op:from_json", "op:attach", "op:replace_delete", "op:replace_keep", "op:prune",
             "op:prune_strict", "op:expand", "op:delete", "op:delete_keep_children", "op:forget", "op:replace_rejected", "id_stress_nodes", "ops_discarding", "ops_creating"]
 EXHAUSTIVE = {"quick": False, "thorough": False}
 
@@ -559,6 +559,45 @@ def misplaced_sweep(ctx, gen):
                 emlkit.discard(t)
 
 
+def nested_foreign_sweep(ctx, gen):
+    """Every element name the library has no rule for (inline markup of text, EML elements it does not model, legacy spellings), with
+    another such element inside it and text around both, in a paragraph of an abstract: pruned, under the registry monitor."""
+    history = []
+    mon = Monitor(ctx, history)
+    names = [x for x in dict.fromkeys(list(treegen.FOREIGN_NAMES) + treegen.unmodelled_eml_names()) if x]
+    inners = ("citetitle", "ulink", "emphasis", "span", "verifDeep", "subscript")
+    for outer in names:
+        for inner in inners:
+            for strict in (False, True):
+                t = Node("dataset")
+                ab = Node("abstract")
+                t.add_child(ab)
+                pa = Node("para", content="before ")
+                ab.add_child(pa)
+                o = Node(outer, content="outer text ")
+                o.add_attribute("url", "http://example.org")
+                o.tail = " after"
+                pa.add_child(o)
+                i_ = Node(inner, content="inner text")
+                i_.tail = " tail"
+                o.add_child(i_)
+                i_.add_child(Node("verifDeepest", content="x"))
+                before = dict(Node.store)
+                rb = reach(t)
+                history[:] = [["prune_strict" if strict else "prune", snapshot.to_plain(t)]]
+                try:
+                    mvalidate.prune(t, strict=strict)
+                except Exception as ex:
+                    ctx.violation(f"crash:prune:{type(ex).__name__}@{emlkit.raise_site(ex)}", f"prune raised {ex!r}", {"history": list(history)})
+                    emlkit.discard(t)
+                    continue
+                ra = reach(t)
+                mon.check("prune", before, [n for k, n in ra.items() if k not in rb], [n for k, n in rb.items() if k not in ra],
+                          lambda: {"history": list(history)})
+                ctx.count("nested_foreign_sweep_cases")
+                emlkit.discard(t, o)
+
+
 def id_space_stress(ctx, count):
     """Many simultaneously live nodes: every one retrievable, no two sharing an id (a short or coarse id scheme only shows here)."""
     nodes = [Node("n") for _ in range(count)]
@@ -615,6 +654,7 @@ def run(ctx, params):
         id_space_stress(ctx, 250_000 if ctx.tier == "quick" else 400_000)
         ctx.case(big_copy, ctx, 16500, seconds=600.0)
         ctx.case(misplaced_sweep, ctx, gen, seconds=600.0)
+        ctx.case(nested_foreign_sweep, ctx, gen, seconds=600.0)
     for h in range(params["histories"]):
         ctx.case(one_history, ctx, gen, h, seconds=60.0)
         ctx.count("histories")
